@@ -12,12 +12,12 @@
 #include <string.h>
 #include <stdlib.h>
 
-enum { Z_FILL = 1, Z_SORT, Z_SEARCH, Z_FIND, Z_REVERSE };
+enum { Z_FILL = 1, Z_SORT, Z_SEARCH, Z_FIND, Z_REVERSE, Z_ADVSORT };
 
 static const char *z_opname(int k)
 {
     switch (k) {
-    case Z_FILL: return "fill"; case Z_SORT: return "sort"; case Z_SEARCH: return "search"; case Z_FIND: return "find"; case Z_REVERSE: return "reverse";
+    case Z_FILL: return "fill"; case Z_SORT: return "sort"; case Z_SEARCH: return "search"; case Z_FIND: return "find"; case Z_REVERSE: return "reverse"; case Z_ADVSORT: return "adversary-sort";
     }
     return "?";
 }
@@ -54,10 +54,35 @@ static int cmp_aux(const void *a, const void *b, void *priv)
     return (int)*(const unsigned char *)a - (int)*(const unsigned char *)b;
 }
 
+/* McIlroy's adversary ("A killer adversary for quicksort", 1999): the elements carry only an identity; their values are
+ * decided lazily by the comparison function so that every pivot the library picks turns out to be (nearly) the smallest
+ * element still undecided. The answers are consistent with one total order, fixed by the end of the sort, so this is a
+ * legal comparison function - and it drives any quicksort to its deepest recursion / longest pending-work list. */
+#define ADVMAX 4096
+static int adv_active, adv_dir; static unsigned adv_val[ADVMAX], adv_gas, adv_nsolid, adv_cand;
+static unsigned adv_id(const unsigned char *e) { return (unsigned)e[0] | (unsigned)e[1] << 8; }
+static int adv_cmp(const unsigned char *a, const unsigned char *b)
+{
+    unsigned x = adv_id(a), y = adv_id(b);
+    if (x >= adv_gas || y >= adv_gas) VIOL("torn_element", "the comparison function was handed an element whose bytes are not those of any element of the array");
+    if (adv_val[x] == adv_gas && adv_val[y] == adv_gas) { if (x == adv_cand) adv_val[x] = adv_nsolid++; else adv_val[y] = adv_nsolid++; }
+    if (adv_val[x] == adv_gas) adv_cand = x; else if (adv_val[y] == adv_gas) adv_cand = y;
+    /* adv_dir -1: the mirrored adversary (every pivot turns out to be nearly the largest element undecided) */
+    return adv_dir * ((adv_val[x] > adv_val[y]) - (adv_val[x] < adv_val[y]));
+}
+
 static int cmp_cb(const void *a, const void *b, void *priv)
 {
     CB_ENTER();
     int r;
+    if (adv_active) {
+        if (++ncmp > cmpcap) VIOL("no_termination", "%s of %zu elements made more than %llu comparisons", z_opname(g_run.opkind), n, (unsigned long long)cmpcap);
+        if ((!is_elem(a) && a != (const void *)scratch) || (!is_elem(b) && b != (const void *)scratch))
+            VIOL("compare_foreign_pointer", "the comparison function was handed a pointer that is neither an element of the array nor the scratch element");
+        r = sim_cmp(adv_cmp(a, b));
+        CB_LEAVE();
+        return r;
+    }
     if (reentrant) {
         unsigned char want = (unsigned char)(key_of(a) % 32);
         ssize_t at;
@@ -73,7 +98,7 @@ static int cmp_cb(const void *a, const void *b, void *priv)
         VIOL("compare_foreign_pointer", "the comparison function was handed a pointer that is neither an element of the array nor the scratch element");
     {
         unsigned x = key_of(a), y = key_of(b);
-        r = (x > y) - (x < y);
+        r = sim_cmp((x > y) - (x < y));
     }
     CB_LEAVE();
     return r;
@@ -111,7 +136,7 @@ static void z_exec(const plan_t *p)
     simrand_reset(p->cfg[CF_JUNK] * 131 + p->cfg[CF_RAND], (int)(p->cfg[CF_RAND] & 1) ? RS_STICKY : RS_UNIFORM);
     es = (size_t)p->cfg[CF_ES]; if (es < 1) es = 1; if (es > MAXES) es = MAXES;
     kb = es >= 4 ? 2 : 1;
-    n = 0; sorted = 0; arr = NULL;
+    n = 0; sorted = 0; arr = NULL; adv_active = 0;
     reentrant = (int)(p->cfg[CF_RAND] >> 1 & 7) == 0;
     { int q; for (q = 0; q < 32; q++) auxarr[q] = (unsigned char)q; }
     if (reentrant) PROBE("comparator_reenters_library");
@@ -184,6 +209,44 @@ static void z_exec(const plan_t *p)
             EVT("sort", ai, n, ncmp);
             break;
         }
+        case Z_ADVSORT: {
+            static const int algos[] = { CSTL_SORT_ALGORITHM_QUICK_M, CSTL_SORT_ALGORITHM_QUICK, CSTL_SORT_ALGORITHM_QUICK_R, CSTL_SORT_ALGORITHM_HEAP, 9 };
+            static const char *names[] = { "quick-median3", "quick", "quick-random", "heap", "selector-9" };
+            static const unsigned ns[] = { 40, 200, 700, 1200, 2000, 3000 };
+            int ai = (int)(o->a[0] % 5), custom_swap = (int)(o->a[1] & 1);
+            size_t b;
+            if (es < 2) { EVT("skip", 0, 0, 0); break; }
+            n = ns[o->a[2] % 6];
+            if (arr) simheap_free(arr);
+            arr = simheap_alloc(n * es, TAG_EXT);
+            free(ref); ref = malloc(n * es + 1);
+            for (i = 0; i < n; i++) {
+                unsigned char *e = arr + i * es;
+                e[0] = (unsigned char)i; e[1] = (unsigned char)(i >> 8);
+                for (b = 2; b < es; b++) e[b] = (unsigned char)((i * 7) ^ (b * 29));
+                adv_val[i] = (unsigned)n;
+            }
+            memcpy(ref, arr, n * es);
+            adv_gas = (unsigned)n; adv_nsolid = 0; adv_cand = 0; adv_active = 1; adv_dir = (o->a[1] & 2) ? -1 : 1;
+            algoname = names[ai]; g_cur_ctx = "adversary";
+            cmpcap = 64 * (uint64_t)(n + 16) * (uint64_t)(n + 16);
+            TRY(cstl_raw_array_sort(arr, n, es, cmp_cb, NULL, custom_swap ? swap_cb : cstl_swap, scratch, (cstl_sort_algorithm_t)algos[ai]));
+            adv_active = 0;
+            if (g_aborted) VIOL(g_aborted == 2 ? "assert" : "abort", "sort aborted");
+            check_same_multiset("sort against the adversary");
+            /* values never decided were never compared with each other: any order among them is correct */
+            for (i = 0; i < n; i++) { unsigned id = adv_id(arr + i * es); if (id < n && adv_val[id] == adv_gas) adv_val[id] = adv_nsolid++; }
+            for (i = 1; i < n; i++)
+                if (adv_dir * (int)(adv_val[adv_id(arr + (i - 1) * es)] > adv_val[adv_id(arr + i * es)]) > 0
+                    || (adv_dir < 0 && adv_val[adv_id(arr + (i - 1) * es)] < adv_val[adv_id(arr + i * es)]))
+                    VIOL("not_sorted", "sort (%s, %zu elements of %zu bytes) against McIlroy's adversary: element %zu compares greater than element %zu", algoname, n, es, i - 1, i);
+            simheap_audit("C11", "sort");
+            sorted = 0;
+            PROBE("adversary_sort"); if (adv_dir < 0) PROBE("adversary_mirrored");
+            if (ncmp > (uint64_t)n * n / 8) PROBE("adversary_forced_quadratic");
+            EVT("advsort", ai, n, ncmp);
+            break;
+        }
         case Z_SEARCH: case Z_FIND: {
             unsigned key; int exists = 0; size_t first = 0;
             if (arr == NULL) { EVT("skip", 0, 0, 0); break; }
@@ -223,7 +286,7 @@ static void z_exec(const plan_t *p)
         default: EVT("skip", 0, 0, 0);
         }
     }
-    free(ref); ref = NULL;
+    free(ref); ref = NULL; adv_active = 0;
     simheap_audit("C11", "sort-end");
     g_run.nontrivial = n >= 2;
 }
@@ -253,6 +316,11 @@ static void z_gen(prng_t *r, int mode, plan_t *p)
             for (k2 = 0; k2 < nq; k2++) { op_t *f = plan_add(p, prng_chance(r, 3, 4) ? Z_SEARCH : Z_FIND); f->a[0] = prng_next(r) >> 8; f->a[1] = prng_below(r, 2); }
             if (prng_chance(r, 1, 3)) { op_t *v = plan_add(p, Z_REVERSE); v->a[0] = prng_below(r, 2); }     /* the next sort sees reversed input */
         }
+    }
+    if (!huge && prng_chance(r, 1, 12)) {
+        op_t *s = plan_add(p, Z_ADVSORT);
+        s->a[0] = prng_chance(r, 1, 2) ? 0 : prng_below(r, 5); s->a[1] = prng_below(r, 4); s->a[2] = prng_below(r, 6);
+        if (prng_chance(r, 1, 2)) { op_t *f = plan_add(p, Z_FIND); f->a[0] = prng_next(r) >> 8; f->a[1] = prng_below(r, 2); }
     }
 }
 
